@@ -1,7 +1,11 @@
 // c17: oracle + correspondence harness for property C17 (memory retained while streaming does
 // not grow with the number of records delivered).  Every format is driven through the public
-// Transform API; at every delivery the size of the tree reachable through parent links from
-// RawRecord().Raw().(*idr.Node) is measured.
+// Transform API with the logging FileFormat wrapper of vh installed (public extension points), so
+// that the node the format reader returned is known also when its transform failed.  After
+// every Read that made the reader return a node - successful or failed with a continuable
+// ErrTransformFailed - what is reachable from that node is measured twice: the tree under the
+// root found through Parent links, and the closure over all five links (Parent, FirstChild,
+// LastChild, PrevSibling, NextSibling).
 package main
 
 import (
@@ -14,27 +18,51 @@ import (
 	"strings"
 	"time"
 
-	"github.com/jf-tech/omniparser"
 	"github.com/jf-tech/omniparser/errs"
 	"github.com/jf-tech/omniparser/idr"
-	"github.com/jf-tech/omniparser/transformctx"
 
 	"verifharness/cmd/c04/sx"
 	"verifharness/vh"
 )
 
-// Case describes the input compactly: Open, then Count records where record i is
-// Recs[i % len(Recs)], joined by Joiner, then Close.
+// Case describes the input compactly: Open, then Count records joined by Joiner, then Close.
+// Record i is Recs[k] with k = Prefix[i] while i < len(Prefix), then Order cyclically (default
+// order: 0,1,..,len(Recs)-1).  With Indexed, "#I#" inside a record is replaced by i.
 type Case struct {
-	Format string     `json:"format"`
-	Schema string     `json:"schema"`
-	Open   string     `json:"open"`
-	Recs   []string   `json:"recs"`
-	Joiner string     `json:"joiner"`
-	Count  int        `json:"count"`
-	Close  string     `json:"close"`
-	Target *sx.Target `json:"target,omitempty"` // xml/json: the FINAL_OUTPUT xpath as a term
-	Pass   []bool     `json:"pass,omitempty"`   // per Recs entry: expected to pass the target filter
+	Format  string     `json:"format"`
+	Schema  string     `json:"schema"`
+	Open    string     `json:"open"`
+	Recs    []string   `json:"recs"`
+	Joiner  string     `json:"joiner"`
+	Count   int        `json:"count"`
+	Close   string     `json:"close"`
+	Target  *sx.Target `json:"target,omitempty"` // xml/json: the FINAL_OUTPUT xpath as a term
+	Pass    []bool     `json:"pass,omitempty"`   // per Recs entry: expected to pass the target filter
+	TFail   []bool     `json:"tfail,omitempty"`  // per Recs entry: its transform fails (continuable)
+	Prefix  []int      `json:"prefix,omitempty"`
+	Order   []int      `json:"order,omitempty"`
+	Indexed bool       `json:"indexed,omitempty"`
+	Kind    string     `json:"kind,omitempty"` // scenario name (for the histogram)
+}
+
+func (c *Case) recIndex(i int) int {
+	if i < len(c.Prefix) {
+		return c.Prefix[i]
+	}
+	if len(c.Order) == 0 {
+		return i % len(c.Recs)
+	}
+	return c.Order[(i-len(c.Prefix))%len(c.Order)]
+}
+
+func (c *Case) passes(i int) bool {
+	k := c.recIndex(i)
+	return k >= len(c.Pass) || c.Pass[k]
+}
+
+func (c *Case) tfails(i int) bool {
+	k := c.recIndex(i)
+	return k < len(c.TFail) && c.TFail[k]
 }
 
 func (c *Case) input() string {
@@ -44,22 +72,48 @@ func (c *Case) input() string {
 		if i > 0 {
 			sb.WriteString(c.Joiner)
 		}
-		sb.WriteString(c.Recs[i%len(c.Recs)])
+		rec := c.Recs[c.recIndex(i)]
+		if c.Indexed {
+			rec = strings.ReplaceAll(rec, "#I#", fmt.Sprint(i))
+		}
+		sb.WriteString(rec)
 	}
 	sb.WriteString(c.Close)
 	return sb.String()
 }
 
-type delivery struct {
-	Size    int // nodes reachable from the record through parent links
-	RecSize int // nodes of the record itself
+// measurement is taken right after a Transform.Read during which the reader returned a node.
+type measurement struct {
+	Size    int  // nodes of the tree under the root reached through Parent links
+	Reach   int  // nodes reachable through all five links
+	RecSize int  // nodes of the record itself
+	OK      bool // the transform of this record succeeded
 	Dump    string
 }
 
 type result struct {
-	Deliveries []delivery
-	Failed     int
-	Fin        string
+	Ms     []measurement
+	OKs    int
+	Failed int
+	Fin    string
+}
+
+// reach counts the nodes reachable from n through Parent, FirstChild, LastChild, PrevSibling and
+// NextSibling.
+func reach(n *idr.Node) int {
+	seen := map[*idr.Node]bool{n: true}
+	todo := []*idr.Node{n}
+	for len(todo) > 0 {
+		x := todo[len(todo)-1]
+		todo = todo[:len(todo)-1]
+		for _, y := range []*idr.Node{x.Parent, x.FirstChild, x.LastChild, x.PrevSibling, x.NextSibling} {
+			if y != nil && !seen[y] {
+				seen[y] = true
+				todo = append(todo, y)
+			}
+		}
+	}
+	return len(seen)
 }
 
 func run(c *Case, wantDumps bool) (res result) {
@@ -72,45 +126,57 @@ func run(c *Case, wantDumps bool) (res result) {
 			}
 			done <- out
 		}()
-		s, err := omniparser.NewSchema("c17-"+c.Format, strings.NewReader(c.Schema))
+		ls, err := vh.NewLoggedSchema("c17-"+c.Format, []byte(c.Schema), nil)
 		if err != nil {
 			out.Fin = "schema: " + err.Error()
 			return
 		}
-		t, err := s.NewTransform("in", strings.NewReader(c.input()), &transformctx.Ctx{})
+		t, log, err := ls.NewTransform("in", strings.NewReader(c.input()))
 		if err != nil {
 			out.Fin = "newtransform: " + err.Error()
 			return
 		}
+		seen := 0
 		for {
-			_, err := t.Read()
-			if err == io.EOF {
+			_, rerr := t.Read()
+			// the node(s) the reader returned during this Read (normally one)
+			var node *idr.Node
+			for ; seen < len(log.Reader); seen++ {
+				if ev := log.Reader[seen]; !ev.Release && ev.Node != nil && ev.Err == nil {
+					node = ev.Node
+				}
+			}
+			if rerr == io.EOF {
 				out.Fin = "EOF"
 				return
 			}
-			if err != nil {
-				if errs.IsErrTransformFailed(err) {
-					out.Failed++
-					continue
+			ok := rerr == nil
+			if rerr != nil && !errs.IsErrTransformFailed(rerr) {
+				out.Fin = "error: " + rerr.Error()
+				return
+			}
+			if ok {
+				out.OKs++
+				raw, err := t.RawRecord()
+				if err != nil {
+					out.Fin = "rawrecord: " + err.Error()
+					return
 				}
-				out.Fin = "error: " + err.Error()
-				return
+				if n, isNode := raw.Raw().(*idr.Node); !isNode || n != node {
+					out.Fin = "rawrecord: not the node the reader returned"
+					return
+				}
+			} else {
+				out.Failed++
 			}
-			raw, err := t.RawRecord()
-			if err != nil {
-				out.Fin = "rawrecord: " + err.Error()
-				return
+			if node == nil {
+				continue // a failure that did not come with a record (not generated here)
 			}
-			n, ok := raw.Raw().(*idr.Node)
-			if !ok || n == nil {
-				out.Fin = "rawrecord: not an *idr.Node"
-				return
-			}
-			d := delivery{Size: vh.TreeSize(vh.Root(n)), RecSize: vh.TreeSize(n)}
+			m := measurement{Size: vh.TreeSize(vh.Root(node)), Reach: reach(node), RecSize: vh.TreeSize(node), OK: ok}
 			if wantDumps {
-				d.Dump = vh.CoqTree(n)
+				m.Dump = vh.CoqTree(node)
 			}
-			out.Deliveries = append(out.Deliveries, d)
+			out.Ms = append(out.Ms, m)
 		}
 	}()
 	select {
@@ -121,13 +187,17 @@ func run(c *Case, wantDumps bool) (res result) {
 	return res
 }
 
-// ---- fixtures -------------------------------------------------------------------------------------
-
-const finalOutput = `"transform_declarations": { "FINAL_OUTPUT": { %s "object": {
-  "a": { "xpath": "a" }, "b": { "xpath": "b" }, "c": { "xpath": "c" } } } }`
+// ---- scenarios ------------------------------------------------------------------------------------
 
 func hdr(format string) string {
 	return `"parser_settings": { "version": "omni.2.1", "file_format_type": "` + format + `" }`
+}
+
+// FINAL_OUTPUT: b is int-typed, so a record with a non-numeric b fails its transform with a
+// continuable error; x (if given) is extra leading text such as the xpath filter.
+func finalOutput(x string) string {
+	return `"transform_declarations": { "FINAL_OUTPUT": { ` + x + ` "object": {
+  "a": { "xpath": "a" }, "b": { "xpath": "b", "type": "int" }, "c": { "xpath": "c" } } } }`
 }
 
 func pad(s string, n int) string {
@@ -137,125 +207,256 @@ func pad(s string, n int) string {
 	return s + strings.Repeat(" ", n-len(s))
 }
 
-type fixture struct {
+func jsonQuote(s string) string {
+	b, _ := json.Marshal(s)
+	return string(b)
+}
+
+type flatFixture struct {
 	format     string
 	schema     func(filter bool) string
 	open, clos string
 	rec        func(a, b, c string) string
-	joiner     string
-	sepJoiner  string // "" = the format has no insignificant separator to offer
-	target     func(filter bool) *sx.Target
+	sep        string // an insignificant separator the format offers between records ("" = none)
 }
 
-func strTarget(steps []sx.Step, filter bool) *sx.Target {
-	t := &sx.Target{Steps: steps}
-	if filter {
-		t.Filters = []*sx.PExp{{Op: "not", P: &sx.PExp{Op: "childeq", NT: &sx.NT{Local: "a"}, V: "skip"}}}
-	}
-	return t
-}
-
-func fixtures() []fixture {
-	fo := func(x string) string { return fmt.Sprintf(finalOutput, x) }
-	flt := func(filter bool) string {
-		if filter {
+func flatFixtures() []flatFixture {
+	flt := func(f bool) string {
+		if f {
 			return `"xpath": ".[a != 'skip']",`
 		}
 		return ""
 	}
-	fltFixed := func(filter bool) string { // fixed-length values keep their padding
-		if filter {
+	fltFixed := func(f bool) string { // fixed-length values keep their padding
+		if f {
 			return `"xpath": ".[not(starts-with(a, 'skip'))]",`
 		}
 		return ""
 	}
-	xmlT := func(filter bool) *sx.Target {
-		return strTarget([]sx.Step{{NT: sx.NT{Local: "r"}}, {NT: sx.NT{Local: "n"}}}, filter)
-	}
-	jsonT := func(filter bool) *sx.Target {
-		return strTarget([]sx.Step{{NT: sx.NT{Any: true}}}, filter)
-	}
-	return []fixture{
+	return []flatFixture{
 		{format: "csv", schema: func(f bool) string {
 			return `{` + hdr("csv") + `, "file_declaration": { "delimiter": ",", "data_row_index": 1,
-  "columns": [ {"name":"a"}, {"name":"b"}, {"name":"c"} ] }, ` + fo(flt(f)) + `}`
-		}, rec: func(a, b, c string) string { return a + "," + b + "," + c + "\n" }, sepJoiner: "\n"},
+  "columns": [ {"name":"a"}, {"name":"b"}, {"name":"c"} ] }, ` + finalOutput(flt(f)) + `}`
+		}, rec: func(a, b, c string) string { return a + "," + b + "," + c + "\n" }, sep: "\n"},
 		{format: "csv2", schema: func(f bool) string {
 			return `{` + hdr("csv2") + `, "file_declaration": { "delimiter": "|",
   "records": [ { "name": "H", "header": "^H", "min": 0, "max": 1 },
-    { "name": "R", "is_target": true, "header": "^R", "columns": [ {"name":"a","index":2}, {"name":"b","index":3}, {"name":"c","index":4} ] } ] }, ` + fo(flt(f)) + `}`
-		}, open: "H|head\n", rec: func(a, b, c string) string { return "R|" + a + "|" + b + "|" + c + "\n" }, sepJoiner: "\n"},
+    { "name": "R", "is_target": true, "header": "^R", "columns": [ {"name":"a","index":2}, {"name":"b","index":3}, {"name":"c","index":4} ] } ] }, ` + finalOutput(flt(f)) + `}`
+		}, open: "H|head\n", rec: func(a, b, c string) string { return "R|" + a + "|" + b + "|" + c + "\n" }, sep: "\n"},
 		{format: "edi", schema: func(f bool) string {
 			return `{` + hdr("edi") + `, "file_declaration": { "segment_delimiter": "~", "element_delimiter": "*",
   "ignore_crlf": true,
   "segment_declarations": [ { "name": "HDR", "min": 0 },
     { "name": "DAT", "is_target": true, "min": 0, "max": -1,
       "elements": [ {"name":"a","index":1}, {"name":"b","index":2}, {"name":"c","index":3} ] },
-    { "name": "TRL", "min": 0 } ] }, ` + fo(flt(f)) + `}`
-		}, open: "HDR*1~", clos: "TRL*9~", rec: func(a, b, c string) string { return "DAT*" + a + "*" + b + "*" + c + "~" }, sepJoiner: "\n"},
+    { "name": "TRL", "min": 0 } ] }, ` + finalOutput(flt(f)) + `}`
+		}, open: "HDR*1~", clos: "TRL*9~", rec: func(a, b, c string) string { return "DAT*" + a + "*" + b + "*" + c + "~" }, sep: "\n"},
 		{format: "fixed-length", schema: func(f bool) string {
 			return `{` + hdr("fixed-length") + `, "file_declaration": { "envelopes": [ { "columns": [
-  {"name":"a","start_pos":1,"length":6}, {"name":"b","start_pos":7,"length":5}, {"name":"c","start_pos":12,"length":6} ] } ] }, ` + fo(fltFixed(f)) + `}`
-		}, rec: func(a, b, c string) string { return pad(a, 6) + pad(b, 5) + pad(c, 6) + "\n" }, sepJoiner: "\n"},
+  {"name":"a","start_pos":1,"length":6}, {"name":"b","start_pos":7,"length":5}, {"name":"c","start_pos":12,"length":6} ] } ] }, ` + finalOutput(fltFixed(f)) + `}`
+		}, rec: func(a, b, c string) string { return pad(a, 6) + pad(b, 5) + pad(c, 6) + "\n" }, sep: "\n"},
 		{format: "fixedlength2", schema: func(f bool) string {
 			return `{` + hdr("fixedlength2") + `, "file_declaration": { "envelopes": [
   { "name": "H", "header": "^H", "min": 0, "max": 1 },
   { "name": "R", "is_target": true, "header": "^R", "columns": [
-  {"name":"a","start_pos":2,"length":6}, {"name":"b","start_pos":8,"length":5}, {"name":"c","start_pos":13,"length":6} ] } ] }, ` + fo(fltFixed(f)) + `}`
-		}, open: "Hhead\n", rec: func(a, b, c string) string { return "R" + pad(a, 6) + pad(b, 5) + pad(c, 6) + "\n" }, sepJoiner: ""},
-		{format: "json", schema: func(f bool) string {
-			return `{` + hdr("json") + `, ` + fo(`"xpath": `+jsonQuote(jsonT(f).XPath())+`,`) + `}`
-		}, open: "[", clos: "]", joiner: ",", sepJoiner: " ,\n  ",
-			rec:    func(a, b, c string) string { return fmt.Sprintf(`{"a":%q,"b":%s,"c":%q}`, a, b, c) },
-			target: jsonT},
-		{format: "xml", schema: func(f bool) string {
-			return `{` + hdr("xml") + `, ` + fo(`"xpath": `+jsonQuote(xmlT(f).XPath())+`,`) + `}`
-		}, open: "<r>", clos: "</r>", sepJoiner: "", // character data between records: F7, corpus only
-			rec:    func(a, b, c string) string { return "<n><a>" + a + "</a><b>" + b + "</b><c>" + c + "</c></n>" },
-			target: xmlT},
+  {"name":"a","start_pos":2,"length":6}, {"name":"b","start_pos":8,"length":5}, {"name":"c","start_pos":13,"length":6} ] } ] }, ` + finalOutput(fltFixed(f)) + `}`
+		}, open: "Hhead\n", rec: func(a, b, c string) string { return "R" + pad(a, 6) + pad(b, 5) + pad(c, 6) + "\n" }},
 	}
 }
 
-func jsonQuote(s string) string {
-	b, _ := json.Marshal(s)
-	return string(b)
+// order draws the sequence in which the record kinds follow one another.  Kinds: 0 and 3 pass,
+// 1 is rejected by the target filter, 2 fails its transform.
+func order(r *vh.Rng, filter bool, tfail string) (prefix, ord []int) {
+	good := func() int { return []int{0, 3}[r.Pick(2)] }
+	switch tfail {
+	case "every-k":
+		for i, k := 0, r.Between(2, 5); i < k-1; i++ {
+			ord = append(ord, good())
+		}
+		ord = append(ord, 2)
+	case "burst":
+		for i, k := 0, r.Between(3, 9); i < k; i++ {
+			ord = append(ord, good())
+		}
+		for i, k := 0, r.Between(3, 8); i < k; i++ {
+			ord = append(ord, 2)
+		}
+	case "start":
+		for i, k := 0, r.Between(3, 12); i < k; i++ {
+			prefix = append(prefix, 2)
+		}
+		ord = []int{good(), good()}
+	case "most":
+		ord = []int{2, 2, 2, good(), 2, 2}
+	default:
+		ord = []int{good(), good(), good()}
+	}
+	if filter {
+		// 30-70 percent of the records are rejected by the target filter
+		n := len(ord)
+		rej := r.Between(n*3/7+1, n*7/3+1)
+		for i := 0; i < rej; i++ {
+			p := r.Pick(len(ord) + 1)
+			ord = append(ord[:p:p], append([]int{1}, ord[p:]...)...)
+		}
+		if len(prefix) > 0 && r.Chance(0.5) {
+			prefix = append([]int{1, 1}, prefix...)
+		}
+	}
+	return prefix, ord
 }
 
-func mkCase(fx fixture, filter, sep bool, count int, r *vh.Rng) *Case {
-	c := &Case{Format: fx.format, Schema: fx.schema(filter), Open: fx.open, Close: fx.clos, Joiner: fx.joiner, Count: count}
+func vals(r *vh.Rng) (a, a2, b, b2, c string) {
+	return fmt.Sprintf("v%d", r.Pick(9)), fmt.Sprintf("w%d", r.Pick(9)), fmt.Sprint(r.Between(0, 9999)), fmt.Sprint(r.Between(0, 99)), r.PickStr("abc", "x", "zz9", "w")
+}
+
+func flatCase(fx flatFixture, filter, sep bool, tfail string, count int, r *vh.Rng) *Case {
+	c := &Case{Format: fx.format, Schema: fx.schema(filter), Open: fx.open, Close: fx.clos, Count: count,
+		Kind: fmt.Sprintf("filter=%v sep=%v tfail=%s", filter, sep, tfail)}
 	if sep {
-		c.Joiner = fx.sepJoiner
-		if fx.format != "json" {
-			c.Joiner = fx.joiner + fx.sepJoiner
+		c.Joiner = fx.sep
+	}
+	a, a2, b, b2, cc := vals(r)
+	c.Recs = []string{fx.rec(a, b, cc), fx.rec("skip", b2, cc), fx.rec(a2, "x9", cc), fx.rec(a2, b2, cc)}
+	c.Pass = []bool{true, !filter, true, true}
+	c.TFail = []bool{false, false, true, false}
+	c.Prefix, c.Order = order(r, filter, tfail)
+	return c
+}
+
+func nt(s string) sx.NT { return sx.NT{Local: s} }
+
+func notChildEq(name, v string) *sx.PExp {
+	n := nt(name)
+	return &sx.PExp{Op: "not", P: &sx.PExp{Op: "childeq", NT: &n, V: v}}
+}
+
+// xmlCase: <lib id=".."><shelf> book* </shelf></lib>, records with attributes; the target's
+// trailing predicates are attribute-only, child-value, or absent; the path may use "//".
+func xmlCase(pred string, desc bool, tfail string, count int, r *vh.Rng) *Case {
+	steps := []sx.Step{{NT: nt("lib")}, {NT: nt("shelf")}, {NT: nt("book")}}
+	if desc {
+		steps = []sx.Step{{Desc: true, NT: nt("book")}}
+		if r.Chance(0.5) {
+			steps = []sx.Step{{NT: nt("lib")}, {Desc: true, NT: nt("book")}}
 		}
 	}
-	if fx.target != nil {
-		c.Target = fx.target(filter)
+	tg := &sx.Target{Steps: steps}
+	lang, kind := [2]string{"", "lang"}, [2]string{"", "kind"}
+	filter := true
+	switch pred {
+	case "attr":
+		tg.Filters = []*sx.PExp{{Op: "attreq", Name: &lang, V: "en"}}
+	case "attr2":
+		tg.Filters = []*sx.PExp{{Op: "attreq", Name: &lang, V: "en"}, {Op: "hasattr", Name: &kind}}
+	case "attr-not":
+		tg.Filters = []*sx.PExp{{Op: "not", P: &sx.PExp{Op: "attreq", Name: &lang, V: "xx"}}}
+	case "child":
+		tg.Filters = []*sx.PExp{notChildEq("a", "skip")}
+	case "child+attr":
+		tg.Filters = []*sx.PExp{{Op: "hasattr", Name: &lang}, notChildEq("a", "skip")}
+	default:
+		filter = false
 	}
-	k := r.Between(2, 5)
-	for i := 0; i < k; i++ {
-		a := fmt.Sprintf("v%d", r.Pick(9))
-		pass := true
-		if filter && (i == 1 || r.Chance(0.3)) {
-			a, pass = "skip", false
+	a, a2, b, b2, cc := vals(r)
+	book := func(lang, kind, a, b, c string) string {
+		k := ""
+		if kind != "" {
+			k = ` kind="` + kind + `"`
 		}
-		c.Recs = append(c.Recs, fx.rec(a, fmt.Sprint(r.Between(0, 9999)), r.PickStr("abc", "x", "zz9", "w")))
-		c.Pass = append(c.Pass, pass)
+		return `<book lang="` + lang + `"` + k + ` n="7"><a>` + a + `</a><b>` + b + `</b><c>` + c + `</c></book>`
 	}
+	rejected := book("xx", "", "skip", b2, cc) // fails every one of the predicates above
+	if pred == "attr2" && r.Chance(0.5) {
+		rejected = book("en", "", a, b2, cc) // passes the first predicate, fails the second
+	}
+	c := &Case{Format: "xml", Open: `<lib id="1"><shelf>`, Close: `</shelf></lib>`, Count: count, Target: tg,
+		Kind: fmt.Sprintf("xml pred=%s desc=%v tfail=%s", pred, desc, tfail),
+		Schema: `{` + hdr("xml") + `, ` + finalOutput(`"xpath": `+jsonQuote(tg.XPath())+`,`) + `}`}
+	c.Recs = []string{book("en", "k", a, b, cc), rejected, book("en", "k", a2, "x9", cc), book("en", "q", a2, b2, cc)}
+	c.Pass = []bool{true, !filter, true, true}
+	c.TFail = []bool{false, false, true, false}
+	if tfail == "multi-match" { // two <c> children: xpath "c" matches more than one node
+		c.Recs[2] = `<book lang="en" kind="k" n="7"><a>` + a2 + `</a><b>1</b><c>1</c><c>2</c></book>`
+		tfail = "every-k"
+	}
+	c.Prefix, c.Order = order(r, filter, tfail)
+	return c
+}
+
+// jsonCase: records are array elements or the values of an object keyed by id, at the top level
+// or nested below objects; records are objects or scalars.
+func jsonCase(shape string, scalar, filter bool, tfail string, count int, r *vh.Rng) *Case {
+	anyNT := sx.NT{Any: true}
+	var steps []sx.Step
+	var open, clos string
+	keyed := false
+	switch shape {
+	case "root-array":
+		open, clos = "[", "]"
+		steps = []sx.Step{{NT: anyNT}}
+	case "object-values":
+		open, clos, keyed = `{"meta":{"v":1},"recs":{`, `}}`, true
+		steps = []sx.Step{{NT: nt("recs")}, {NT: anyNT}}
+	case "nested-array":
+		open, clos = `{"x":{"meta":[1,2],"recs":[`, `]}}`
+		steps = []sx.Step{{NT: nt("x")}, {NT: nt("recs")}, {NT: anyNT}}
+	default: // nested-object-values
+		open, clos, keyed = `{"x":{"y":{"recs":{`, `}}}}`, true
+		steps = []sx.Step{{NT: nt("x")}, {NT: nt("y")}, {NT: nt("recs")}, {NT: anyNT}}
+		if r.Chance(0.4) {
+			steps = []sx.Step{{Desc: true, NT: nt("recs")}, {NT: anyNT}}
+		}
+	}
+	tg := &sx.Target{Steps: steps}
+	if filter {
+		if scalar {
+			tg.Filters = []*sx.PExp{{Op: "not", P: &sx.PExp{Op: "selfeq", V: "skip"}}}
+		} else {
+			tg.Filters = []*sx.PExp{notChildEq("a", "skip")}
+		}
+	}
+	a, a2, b, b2, cc := vals(r)
+	key := func(s string) string {
+		if keyed {
+			return `"id#I#":` + s
+		}
+		return s
+	}
+	c := &Case{Format: "json", Open: open, Close: clos, Joiner: ",", Count: count, Target: tg, Indexed: keyed,
+		Kind: fmt.Sprintf("json shape=%s scalar=%v filter=%v tfail=%s", shape, scalar, filter, tfail)}
+	if r.Chance(0.3) {
+		c.Joiner = " ,\n  "
+	}
+	if scalar {
+		// the record is a string; the transform reads it as an int, so a non-numeric one fails
+		c.Schema = `{` + hdr("json") + `, "transform_declarations": { "FINAL_OUTPUT": { "xpath": ` + jsonQuote(tg.XPath()) + `,
+  "object": { "v": { "xpath": ".", "type": "int" } } } } }`
+		c.Recs = []string{key(`"` + b + `"`), key(`"skip"`), key(`"x9"`), key(b2)}
+		c.Pass = []bool{true, !filter, true, true}
+		c.TFail = []bool{false, filter == false, true, false} // "skip" is not an int either
+	} else {
+		c.Schema = `{` + hdr("json") + `, ` + finalOutput(`"xpath": `+jsonQuote(tg.XPath())+`,`) + `}`
+		obj := func(a, b, c string) string { return key(fmt.Sprintf(`{"a":%q,"b":%q,"c":%q}`, a, b, c)) }
+		c.Recs = []string{obj(a, b, cc), obj("skip", b2, cc), obj(a2, "x9", cc), obj(a2, b2, cc)}
+		c.Pass = []bool{true, !filter, true, true}
+		c.TFail = []bool{false, false, true, false}
+	}
+	c.Prefix, c.Order = order(r, filter, tfail)
 	return c
 }
 
 // ---- running one case ------------------------------------------------------------------------------
 
-const coqCap = 3000    // records per Coq case of a record-at-a-time reader (the Go oracle sees all of them)
-const coqStreamCap = 150 // records per Coq case of the XML/JSON stream readers: the model is rerun on a shorter input
+const coqCap = 4000      // records per Coq case of a record-at-a-time reader (the Go oracle sees all of them)
+const coqStreamCap = 120 // records per Coq case of the XML/JSON stream readers: the model is rerun on a shorter input
 
-func runCase(c *Case, sum *vh.Summary, cw *vh.CaseWriter, verbose bool) (nontrivial bool) {
-	small := c.Count <= coqCap
+func runCase(o *vh.Opts, c *Case, sum *vh.Summary, cw *vh.CaseWriter, verbose bool) (nontrivial bool) {
+	vh.Current(o, c)
 	res := run(c, c.Target != nil && c.Count <= coqStreamCap)
 	if verbose {
-		fmt.Printf("format=%s count=%d recs=%q joiner=%q open=%q close=%q\n", c.Format, c.Count, c.Recs, c.Joiner, c.Open, c.Close)
-		fmt.Printf("implementation: %d deliveries, %d per-record failures, end=%s\n", len(res.Deliveries), res.Failed, res.Fin)
+		fmt.Printf("format=%s kind=%q count=%d joiner=%q open=%q close=%q prefix=%v order=%v\nrecs=%q\n", c.Format, c.Kind, c.Count, c.Joiner, c.Open, c.Close, c.Prefix, c.Order, c.Recs)
+		fmt.Printf("implementation: %d records transformed, %d failed transforms, %d reader deliveries measured, end=%s\n", res.OKs, res.Failed, len(res.Ms), res.Fin)
 	}
 	if res.Fin != "EOF" {
 		sum.Fail("the transform did not reach EOF: "+res.Fin, c, nil)
@@ -264,68 +465,92 @@ func runCase(c *Case, sum *vh.Summary, cw *vh.CaseWriter, verbose bool) (nontriv
 		}
 		return false
 	}
-	want := 0
+	wantOK, wantFail := 0, 0
 	for i := 0; i < c.Count; i++ {
-		if len(c.Pass) == 0 || c.Pass[i%len(c.Pass)] {
-			want++
+		if c.passes(i) {
+			if c.tfails(i) {
+				wantFail++
+			} else {
+				wantOK++
+			}
 		}
 	}
-	if len(res.Deliveries) != want {
-		sum.Fail(fmt.Sprintf("expected %d deliveries, got %d", want, len(res.Deliveries)), c, nil)
+	if res.OKs != wantOK || res.Failed != wantFail || len(res.Ms) != wantOK+wantFail {
+		sum.Fail(fmt.Sprintf("expected %d transformed records and %d failed transforms, got %d and %d (%d reader deliveries)", wantOK, wantFail, res.OKs, res.Failed, len(res.Ms)), c, nil)
 		return false
 	}
-	// ---- the property oracle: constant after the first few records ----
-	base, first, last, maxv, at := 0, -1, -1, 0, -1
-	for k, d := range res.Deliveries {
-		if k < 3 && d.Size > base {
-			base = d.Size
+	// ---- the property oracle: what is reachable at a delivery is constant after the first few ----
+	// (what is reachable = a fixed part + the record itself, so the record's own size is taken out:
+	// records of different shapes may alternate)
+	base, maxv, at, first, last := 0, 0, -1, -1, -1
+	linkDiff := -1
+	for k, m := range res.Ms {
+		fixed := m.Reach - m.RecSize
+		if k < 3 && fixed > base {
+			base = fixed
 		}
 		if k == 0 {
-			first = d.Size
+			first = fixed
 		}
-		last = d.Size
-		if d.Size > maxv {
-			maxv, at = d.Size, k
+		last = fixed
+		if fixed > maxv {
+			maxv, at = fixed, k
+		}
+		if m.Reach != m.Size && linkDiff < 0 {
+			linkDiff = k
 		}
 	}
 	if verbose {
-		var head []int
-		for k := 0; k < len(res.Deliveries) && k < 8; k++ {
-			head = append(head, res.Deliveries[k].Size)
+		var head []string
+		for k := 0; k < len(res.Ms) && k < 10; k++ {
+			s := fmt.Sprint(res.Ms[k].Reach)
+			if !res.Ms[k].OK {
+				s += "(failed transform)"
+			}
+			head = append(head, s)
 		}
-		fmt.Printf("reachable tree size at the first deliveries: %v ... at the last: %d (max %d at delivery %d)\n", head, last, maxv, at)
+		fmt.Printf("reachable nodes at the first deliveries: %v ... beyond the record itself at the last: %d (max %d at delivery %d)\n", head, last, maxv, at)
 	}
-	if maxv > base {
-		sum.Fail("the tree reachable from a delivered record grows with the number of records delivered",
-			c, map[string]interface{}{"size_at_first_delivery": first, "size_at_last_delivery": last, "max": maxv, "max_at_delivery": at, "deliveries": len(res.Deliveries)})
+	switch {
+	case maxv > base:
+		sum.Fail("the node graph reachable from a record the reader returned grows with the number of records read",
+			c, map[string]interface{}{"reachable_beyond_the_record_at_first": first, "at_last": last, "max": maxv, "max_at": at, "reader_deliveries": len(res.Ms)})
 		if verbose {
-			fmt.Println("ORACLE FAILS: reachable tree grows:", first, "->", last)
+			fmt.Println("ORACLE FAILS: reachable node count grows:", first, "->", last)
 		}
-	} else if verbose {
-		fmt.Println("oracle holds: reachable tree size is constant")
+	case linkDiff >= 0:
+		m := res.Ms[linkDiff]
+		sum.Fail("sibling/child links reach nodes that are not in the tree under the root (a removed node is still linked)",
+			c, map[string]interface{}{"delivery": linkDiff, "tree_under_root": m.Size, "reachable_through_all_links": m.Reach})
+		if verbose {
+			fmt.Println("ORACLE FAILS: link closure differs from the tree at delivery", linkDiff)
+		}
+	default:
+		if verbose {
+			fmt.Println("oracle holds: reachable node count is constant")
+		}
 	}
+	nt := len(res.Ms) >= 10
 	// ---- Coq case ----
-	nt := len(res.Deliveries) >= 10
-	if c.Target == nil && !small {
-		return nt
-	}
 	if c.Target == nil {
+		if c.Count > coqCap {
+			return nt
+		}
 		standalone := c.Format == "csv"
-		above := 0
-		recSize := 0
-		if len(res.Deliveries) > 0 {
-			recSize = res.Deliveries[0].RecSize
-			above = res.Deliveries[0].Size - recSize
+		above, recSize := 0, 0
+		if len(res.Ms) > 0 {
+			recSize = res.Ms[0].RecSize
+			above = res.Ms[0].Size - recSize
 		}
 		var recs, sizes []string
 		for i := 0; i < c.Count; i++ {
-			recs = append(recs, "("+vh.CoqNat(recSize)+", "+vh.CoqBool(c.Pass[i%len(c.Pass)])+")")
+			recs = append(recs, "("+vh.CoqNat(recSize)+", "+vh.CoqBool(c.passes(i))+")")
 		}
-		for _, d := range res.Deliveries {
-			sizes = append(sizes, vh.CoqNat(d.Size))
+		for _, m := range res.Ms {
+			sizes = append(sizes, vh.CoqNat(m.Size))
 		}
 		cw.Add(fmt.Sprintf("C17Flat (mkFCase %s %s %s %s)", vh.CoqBool(standalone), vh.CoqNat(above), vh.CoqList(recs), vh.CoqList(sizes)), c)
-		return len(res.Deliveries) >= 10
+		return nt
 	}
 	if c.Count > coqStreamCap {
 		// model vs implementation on the same input shape with fewer records
@@ -338,8 +563,8 @@ func runCase(c *Case, sum *vh.Summary, cw *vh.CaseWriter, verbose bool) (nontriv
 		}
 	}
 	var ds, rel []string
-	for _, d := range res.Deliveries {
-		ds = append(ds, "("+d.Dump+", "+vh.CoqNat(d.Size)+")")
+	for _, m := range res.Ms {
+		ds = append(ds, "("+m.Dump+", "+vh.CoqNat(m.Size)+")")
 		rel = append(rel, "true") // the ingester releases the previous record before the next Read
 	}
 	xp := c.Target.XPath()
@@ -374,9 +599,9 @@ func main() {
 	o := vh.ParseOpts()
 	r := vh.NewRng(o.Seed)
 	sum := vh.NewSummary("C17", o,
-		"inputs that repeat a target record (10^3 quick / 2*10^5 thorough) under fixed ancestors, for each of the seven formats, with and without insignificant separators and with targets that fail the FINAL_OUTPUT filter, run through the public Transform API; the tree reachable through parent links from RawRecord().Raw().(*idr.Node) is measured at every delivery; non-trivial = at least 10 deliveries; distinct by (format, schema, record set, joiner, count)")
+		"inputs that repeat target records (3*10^3 quick / 2*10^5 thorough) under fixed ancestors, for each of the seven formats: with and without insignificant separators, with 30-70% of the records rejected by the target filter (XML: attribute-only, child-value and // targets; JSON: array elements, object values keyed by id, nested, scalar records; flat formats: FINAL_OUTPUT filter), and with records whose transform fails with a continuable error (every k-th, bursts, at the start, most) while the caller keeps reading; run through the public Transform API with the logging FileFormat wrapper; after every Read during which the reader returned a node (transformed or failed) the node graph reachable from it through all five links and the tree under its root are measured; non-trivial = at least 10 reader deliveries; distinct by the whole case")
 	cw := vh.NewCaseWriter(o, "C17", "Base.Tree Model.Stream", "c17case", "check_case17")
-	cw.PerFile = 3
+	cw.PerFile = 4
 
 	if o.Replay != "" {
 		var rf corpusFile
@@ -385,12 +610,13 @@ func main() {
 			fmt.Println("cannot read replay file", o.Replay, err)
 			os.Exit(2)
 		}
-		nt := runCase(&rf.Case, sum, cw, true)
+		nt := runCase(o, &rf.Case, sum, cw, true)
 		fmt.Println("case key:", vh.KeyOf(&rf.Case))
 		sum.Count(o.Replay, nt)
 		cw.Flush()
 		sum.CaseFiles = cw.Files
 		sum.Write(o)
+		vh.Done(o)
 		return
 	}
 	if o.Corpus != "" {
@@ -403,48 +629,61 @@ func main() {
 				sum.Fail("unreadable corpus file "+filepath.Base(f), nil, fmt.Sprint(err))
 				continue
 			}
-			nt := runCase(&cf.Case, sum, cw, false)
+			nt := runCase(o, &cf.Case, sum, cw, false)
 			canon, _ := json.Marshal(cf.Case)
 			sum.Count(string(canon), nt)
 			sum.Hist("corpus")
 			fmt.Printf("corpus %s key=%s\n", filepath.Base(f), vh.KeyOf(&cf.Case))
 		}
 	}
-	count := o.Count(1000, 200000)
-	for _, fx := range fixtures() {
-		for _, filter := range []bool{false, true} {
-			for _, sep := range []bool{false, true} {
-				if sep && fx.sepJoiner == "" {
-					continue
-				}
-				n := count
-				if o.Tier == "thorough" && (filter || sep) {
-					n = count / 4
-				}
-				c := mkCase(fx, filter, sep, n, r)
-				nt := runCase(c, sum, cw, false)
-				canon, _ := json.Marshal(c)
-				sum.Count(string(canon), nt)
-				sum.Hist("format:" + fx.format)
-				sum.Hist(fmt.Sprintf("filter=%v", filter))
-				sum.Hist(fmt.Sprintf("separators=%v", sep))
-				sum.Hist(fmt.Sprintf("records:%d", n))
-				sum.Sample(map[string]interface{}{"format": c.Format, "recs": c.Recs, "joiner": c.Joiner, "count": c.Count})
-			}
-		}
+	big := o.Count(3000, 200000)
+	one := func(c *Case) {
+		nt := runCase(o, c, sum, cw, false)
+		canon, _ := json.Marshal(c)
+		sum.Count(string(canon), nt)
+		sum.Hist("format:" + c.Format)
+		sum.Hist("kind:" + c.Kind)
+		sum.Sample(map[string]interface{}{"format": c.Format, "kind": c.Kind, "recs": c.Recs, "order": c.Order, "prefix": c.Prefix, "count": c.Count})
 	}
-	// a few smaller, differently shaped runs per format (record counts around buffer sizes)
-	for _, fx := range fixtures() {
-		for i := 0; i < 3; i++ {
-			c := mkCase(fx, r.Chance(0.5), r.Chance(0.5) && fx.sepJoiner != "", r.Between(20, 400), r)
-			nt := runCase(c, sum, cw, false)
-			canon, _ := json.Marshal(c)
-			sum.Count(string(canon), nt)
-			sum.Hist("format:" + fx.format)
-			sum.Hist("records:20-400")
+	size := func(full bool) int {
+		if full {
+			return big
 		}
+		if o.Tier == "thorough" {
+			return big / 10
+		}
+		return r.Between(300, 1500)
+	}
+	tfails := []string{"none", "every-k", "burst", "start", "most"}
+	// record-at-a-time readers
+	for _, fx := range flatFixtures() {
+		one(flatCase(fx, false, false, "none", big, r))
+		one(flatCase(fx, true, fx.sep != "", "burst", size(true), r))
+		for _, tf := range tfails {
+			filter := r.Chance(0.5)
+			one(flatCase(fx, filter, fx.sep != "" && r.Chance(0.4), tf, size(false), r))
+		}
+		one(flatCase(fx, true, false, "none", size(false), r))
+	}
+	// XML stream reader (no character data between records: F7 is replayed from the corpus)
+	one(xmlCase("none", false, "none", big, r))
+	one(xmlCase("attr", false, "none", size(true), r))
+	for _, p := range []string{"attr", "attr2", "attr-not", "child", "child+attr", "none"} {
+		one(xmlCase(p, false, tfails[r.Pick(len(tfails))], size(false), r))
+		one(xmlCase(p, true, tfails[r.Pick(len(tfails))], size(false), r))
+	}
+	one(xmlCase("attr", false, "multi-match", size(false), r))
+	// JSON stream reader
+	one(jsonCase("root-array", false, false, "none", big, r))
+	one(jsonCase("object-values", false, true, "none", size(true), r))
+	for _, sh := range []string{"root-array", "object-values", "nested-array", "nested-object-values"} {
+		one(jsonCase(sh, false, true, tfails[r.Pick(len(tfails))], size(false), r))
+		one(jsonCase(sh, false, r.Chance(0.5), tfails[1+r.Pick(4)], size(false), r))
+		one(jsonCase(sh, true, true, tfails[r.Pick(len(tfails))], size(false), r))
+		one(jsonCase(sh, true, false, "none", size(false), r))
 	}
 	cw.Flush()
 	sum.CaseFiles = cw.Files
 	sum.Write(o)
+	vh.Done(o)
 }
